@@ -1,6 +1,7 @@
 from cfg.common import FLOAT_ASSUMPTION, NOTE_COMMON
 
 PROP = {
+    'anchors': [('consist/locomotive/powertrain/fuel_converter.rs', 'set_cur_pwr_out_max'), ('consist/locomotive/powertrain/fuel_converter.rs', 'solve_energy_consumption'), ('consist/locomotive/powertrain/generator.rs', 'set_pwr_in_req'), ('consist/locomotive/powertrain/generator.rs', 'set_cur_pwr_max_out'), ('consist/locomotive/powertrain/electric_drivetrain.rs', 'set_pwr_in_req'), ('consist/locomotive/powertrain/electric_drivetrain.rs', 'set_cur_pwr_max_out'), ('consist/locomotive/powertrain/electric_drivetrain.rs', 'set_cur_pwr_regen_max'), ('consist/locomotive/powertrain/reversible_energy_storage.rs', 'set_cur_pwr_out_max'), ('consist/locomotive/powertrain/reversible_energy_storage.rs', 'solve_energy_consumption'), ('consist/locomotive/conventional_loco.rs', 'set_cur_pwr_max_out'), ('consist/locomotive/battery_electric_loco.rs', 'set_cur_pwr_max_out'), ('consist/locomotive/battery_electric_loco.rs', 'solve_energy_consumption'), ('consist/locomotive/locomotive_model.rs', 'set_cur_pwr_max_out'), ('consist/consist_model.rs', 'set_cur_pwr_max_out'), ('consist/consist_model.rs', 'solve_energy_consumption'), ('utils/mod.rs', 'almost_le'), ('utils/mod.rs', 'almost_ge'), ('utils/mod.rs', 'interp1d')],
     'blocks': ['pt'],
     'proof_modules': ['C09'],
     'namespaces': ['Altrios.Proofs.C09'],
